@@ -18,13 +18,15 @@ VAll == {v \in [VNames -> UNION {VDims[d] : d \in VNames}] : \A d \in VNames : v
 \* (hoisted to the model) and the variable using them, when the variant writes component-level units
 UcUnits == [name |-> "uc", id |-> NoneS, imp |-> NoneS, impId |-> NoneS, ref |-> NoneS, kids |-> <<Unit("litre", "micro", "1", "1", NoneS)>>]
 WVar == Var("w", NoneS, "uc", NoneS, NoneS)
+\* ... and an equation of that component whose number names a standard unit (written "liter" in the US spelling of the 1.x document)
+WMath(fv) == EqMath([fv EXCEPT !.mathNs = "bare"], "w", Cn("1", "litre"))
 Expected(fv, vr) ==
     \* math is compared up to (unused) namespace prefix declarations; an id on the 1.x <group> element is not written
     \* (whether it should become the encapsulation id is not promised)
     LET m == [ModelOf([fv EXCEPT !.mathNs = "bare"]) EXCEPT !.encId = NoneS] IN
     IF vr.unitsPlace = "component"
     THEN [m EXCEPT !.units = Append(@, UcUnits),
-                   !.comps = [i \in DOMAIN @ |-> IF @[i].name = "d1" THEN [@[i] EXCEPT !.vars = Append(@, WVar)] ELSE @[i]]]
+                   !.comps = [i \in DOMAIN @ |-> IF @[i].name = "d1" THEN [@[i] EXCEPT !.vars = Append(@, WVar), !.math = WMath(fv)] ELSE @[i]]]
     ELSE m
 \* 1.0 has no imports, 1.x has no resets
 Applicable(fv, vr) == fv.reset = "none" /\ ~fv.twin /\ (vr.version = "1.0" => fv.imports = "none")
